@@ -63,7 +63,7 @@ package time
 //@ spec clockOK(s string) bool = s[10] == 84 && isd(s,11) && isd(s,12) && s[13] == 58 && isd(s,14) && isd(s,15) && s[16] == 58 && isd(s,17) && isd(s,18)
 // zone designator starting at z: "Z" to the end, or sign hh ":" mm to the end
 //@ spec zoneOK(s string, z int) bool = (s[z] == 90 && len(s) == z + 1) || ((s[z] == 43 || s[z] == 45) && len(s) == z + 6 && isd(s,z+1) && isd(s,z+2) && s[z+3] == 58 && isd(s,z+4) && isd(s,z+5))
-//@ spec zoneOff(s string, z int) int = s[z] == 90 ? 0 : s[z] == 43 ? n2(s,z+1) * 3600 + n2(s,z+4) * 60 : -(n2(s,z+1) * 3600 + n2(s,z+4) * 60)
+//@ spec zoneOff(s string, z int) int = s[z] == 90 ? 0 : s[z] == 43 ? (n2(s,z+1) * 60) * 60 + n2(s,z+4) * 60 : -((n2(s,z+1) * 60) * 60 + n2(s,z+4) * 60)
 // nanoseconds denoted by the fraction digits s[f..e): the first nine digits, scaled; further digits are truncated
 //@ spec frac9(s string, f int, e int) int = min9(e - f) == 0 ? dv(s, f, 0) * 1000000000 : min9(e - f) == 1 ? dv(s, f, 1) * 100000000 : min9(e - f) == 2 ? dv(s, f, 2) * 10000000 : min9(e - f) == 3 ? dv(s, f, 3) * 1000000 : min9(e - f) == 4 ? dv(s, f, 4) * 100000 : min9(e - f) == 5 ? dv(s, f, 5) * 10000 : min9(e - f) == 6 ? dv(s, f, 6) * 1000 : min9(e - f) == 7 ? dv(s, f, 7) * 100 : min9(e - f) == 8 ? dv(s, f, 8) * 10 : dv(s, f, 9)
 // e is the end of the digit run starting at f
@@ -107,7 +107,7 @@ package time
 //@   requires tzInv()
 //@   ensures [C18] tzInv()
 //@   modifies map map[int]*time.Location, ghost lock.held
-//@   uses fend_def(in, 20, 20 + iterpos())
+//@   uses fend_def(in, 20, 20 + i + 1)
 //@   uses umul_exact(val, 1)
 //@   uses umul_exact(val, 10)
 //@   uses umul_exact(val, 100)
